@@ -128,3 +128,57 @@ func VerifC15_CloseWithWaitingAnnounce() {
 	verif_Assert(verif_LiveThreads() <= 0, "no goroutine started by the subscriber remains after Close")
 	verif_Assert(v.s.Close() == nil, "Close can be repeated")
 }
+
+// C15: Close is complete and final also when the receiver reports an error
+// while shutting down (its pubsub topic cannot be left): the error is
+// returned, but every sync has ended, the listener channels are closed and
+// nothing is reported afterwards. Pubsub is the contract model (symbolic runs
+// only; there is no libp2p host here).
+func VerifC15_CloseWhenReceiverCloseFails() {
+	if !verif_Symbolic() {
+		verif_Reach("closed")
+		return
+	}
+	chain := c01chain(2)
+	v := newVSub(chain, -1, 0, 0, true)
+	rcv, err := announce.NewReceiver(vHost{}, "/indexer/ingest/model")
+	verif_Assume(err == nil)
+	v.s.receiver = rcv
+	v.s.watchDone = make(chan struct{})
+	v.s.idleHandlerTTL = time.Hour
+	v.sy.yield = true
+	go v.s.watch()
+	go v.s.distributeEvents()
+	go v.s.idleHandlerCleaner()
+	closeReturned := false
+	hooksAfterClose := 0
+	inner := v.s.generalBlockHook
+	v.s.generalBlockHook = func(p peer.ID, c cid.Cid, a SegmentSyncActions) {
+		if closeReturned {
+			hooksAfterClose++
+		}
+		inner(p, c, a)
+	}
+	evch, _ := v.s.OnSyncFinished()
+	fails := verif_Choose("topicCloseFails", 0, 1) == 1
+	verif_PubsubTopicCloseFails(fails)
+	if verif_Bool("announcedSyncInFlight") {
+		verif_Assume(v.s.Announce(context.Background(), chain[0], v.peer) == nil)
+	}
+	cerr := v.s.Close()
+	closeReturned = true
+	verif_Reach("closed")
+	if fails {
+		verif_Assert(cerr != nil, "Close reports the receiver's shutdown error")
+	} else {
+		verif_Assert(cerr == nil, "Close succeeds")
+	}
+	verif_Assert(v.sy.active == 0, "when Close returns no sync is still running, whatever it returns")
+	for range evch { // (a listener channel that is never closed is reported as a hang)
+	}
+	verif_Assert(v.s.Close() == nil || fails, "a second Close returns promptly")
+	_, serr := v.s.SyncAdChain(context.Background(), v.peer)
+	verif_Assert(serr != nil, "entry points fail after Close")
+	verif_Quiesce()
+	verif_Assert(hooksAfterClose == 0, "no block is reported after Close returned")
+}
